@@ -28,6 +28,24 @@ def is_unchecked(c):
     return (c.res or c.deff or "") in (ARENA + "::get_unchecked", ARENA + "::get_unchecked_mut")
 
 
+def source_of_ref(body, defs, local):
+    """the local that `local` is a (re)borrow / copy of"""
+    seen = set()
+    while local not in seen:
+        seen.add(local)
+        ds = defs.get(local, [])
+        if len(ds) != 1 or ds[0][0] != "assign":
+            return local
+        rv = ds[0][2].rv
+        if rv["k"] == "ref" and not [e for e in rv["place"].fields() if e != "*"]:
+            local = rv["place"].local
+        elif rv["k"] == "use" and rv["op"].place is not None and not [e for e in rv["op"].place.fields() if e != "*"]:
+            local = rv["op"].place.local
+        else:
+            return local
+    return local
+
+
 def run(ck, prog, ctx):
     ck.rule("PAIR", "paired effects on every feasible exit (DESIGN 3.7)")
     ck.rule("PHASE", "who may write a field, in which typestate (DESIGN 3.8)")
@@ -197,6 +215,77 @@ def run(ck, prog, ctx):
                         if kind == "assign" and d.rv["k"] == "ref" and d.rv["mut"] and any(e != "*" and e[0] == "f" and e[1] == "all_parents" and e[2] == TI for e in d.rv["place"].fields()):
                             if ms.call_mutates(t.callee, t.args.index(a)):
                                 cache_writers.add(b.id)
+    # a function that only BORROWS the closure set - `let anc = mem::take(term.all_parents_mut()); .. iterate anc ..; *term.all_parents_mut() = anc;` -
+    # is not a writer of the cache, provided the set is put back, unchanged, on every way out
+    def _touches_cache(fb_, op):
+        at = pvn.of_operand(fb_, op)
+        return any(a[0] == "field" and a[1] == TI and a[2] == "all_parents" for a in at) or any(a[0] == "call" and any(a[1] == am.id for am in accessor_mut) for a in at)
+
+    def _is_set_ref(b_, local, depth=0):
+        """the local IS a reference to a closure set (result of the &mut accessor / a borrow of the field), reached through plain moves and reborrows"""
+        if depth > 6:
+            return False
+        for kind_, pos_, d_ in pvn.defs(b_).get(local, []):
+            if kind_ == "call":
+                if any(d_.callee.res == am.id for am in accessor_mut):
+                    return True
+            elif d_.rv["k"] == "ref":
+                pl = d_.rv["place"]
+                if any(e != "*" and e[0] == "f" and e[1] == "all_parents" and e[2] == TI for e in pl.fields()):
+                    return True
+                if not [e for e in pl.fields() if e != "*"] and _is_set_ref(b_, pl.local, depth + 1):
+                    return True
+            elif d_.rv["k"] == "use" and d_.rv["op"].place is not None and not [e for e in d_.rv["op"].place.fields() if e != "*"]:
+                if _is_set_ref(b_, d_.rv["op"].place.local, depth + 1):
+                    return True
+        return False
+
+    def borrow_and_restore(b_):
+        takes, restores, others = [], [], []
+        for bi_, t_ in b_.calls():
+            nm_ = t_.callee.name or ""
+            if re.search(r"(std|core)::mem::(take|replace)$", nm_) and t_.args and t_.args[0].place is not None and _is_set_ref(b_, t_.args[0].place.local):
+                takes.append((bi_, t_))
+                continue
+            for ai_, a_ in enumerate(t_.args):
+                # only a mutation of the set ITSELF (through its borrowed reference) counts, not of something looked up with an id read from it
+                if a_.place is not None and a_.place.is_local() and ms.call_mutates(t_.callee, ai_) and _is_set_ref(b_, a_.place.local) and not any(t_.callee.res == am.id for am in accessor_mut):
+                    others.append((bi_, t_))
+        take_bbs = {bi_ for bi_, _ in takes}
+        for pos_, s_ in b_.stmts():
+            if s_.k == "assign" and s_.place.proj and s_.place.proj[0] == "*" and len(s_.place.proj) == 1 and _is_set_ref(b_, s_.place.local):
+                v_ = pvn.of_operand(b_, s_.rv["op"]) if s_.rv["k"] == "use" else frozenset()
+                if any(a[0] == "call" and a[3] == b_.id and a[4] in take_bbs for a in v_):
+                    restores.append((pos_, s_))
+                else:
+                    others.append((pos_[0], s_))
+            elif s_.k == "assign" and any(e != "*" and e[0] == "f" and e[1] == "all_parents" and e[2] == TI for e in s_.place.fields()) and s_.rv["k"] != "agg":
+                v_ = pvn.of_operand(b_, s_.rv["op"]) if s_.rv["k"] == "use" else frozenset()
+                if any(a[0] == "call" and a[3] == b_.id and a[4] in take_bbs for a in v_):
+                    restores.append((pos_, s_))
+                else:
+                    others.append((pos_[0], s_))
+        return takes, restores, others
+    for wid in sorted(cache_writers):
+        wb0 = prog.bodies[wid]
+        if wb0.kind not in ("Fn", "AssocFn"):
+            continue
+        takes, restores, others = borrow_and_restore(wb0)
+        if takes and restores and not others:
+            cache_writers.discard(wid)
+            rb_ = {pos_[0] for pos_, _ in restores}
+            leak = False
+            for tb_, _ in takes:
+                seen_, work_ = set(), [x for x in wb0.succ[tb_]]
+                while work_:
+                    y = work_.pop()
+                    if y in seen_ or y in rb_:
+                        continue
+                    seen_.add(y)
+                    if wb0.blocks[y].term.k == "return":
+                        leak = True
+                    work_.extend(wb0.succ[y])
+            ck.ob("PHASE", "borrowed-cache/" + wb0.short, not leak, "%s takes a term's closure set out to iterate it and %s" % (wb0.short, "puts the same set back on every way out" if not leak else "can RETURN without putting it back: that term's ancestor set stays empty"), where=wb0.where(takes[0][1].line))
     _reach_w = {}
 
     def to_writer(t):
@@ -254,6 +343,32 @@ def run(ck, prog, ctx):
         fl = for_loops(cat)
         for i, lp in enumerate(fl):
             steps = {bi for bi, t in cat.calls() if bi in lp["blocks"] and to_writer(t)}
+            # a term that `parents_cached()` reports as done needs no second pass: the edge on which that test is TRUE may bypass the step
+            # (what `parents_cached` may answer is decided by FIELD/parents_cached/table)
+            for bi, t in cat.calls():
+                if bi in lp["blocks"] and (t.callee.res or "").endswith("HpoTermInternal::parents_cached"):
+                    for (sb_, tg_) in positive_edges(cat, pvn, bi):
+                        if tg_ in lp["blocks"] or tg_ == lp["header"]:
+                            steps.add(("edge", sb_, tg_))
+            edge_steps = {x for x in steps if isinstance(x, tuple)}
+            steps = {x for x in steps if not isinstance(x, tuple)}
+            if edge_steps and steps:
+                # split the excused edge with a virtual step: a path over it counts as having done the step
+                from engines import loop_skip_path as _lsp
+                excused = {(sb_, tg_) for _, sb_, tg_ in edge_steps}
+                seen_, st_ = set(), [lp["some"]]
+                skipped = False
+                while st_:
+                    x_ = st_.pop()
+                    if x_ == lp["header"]:
+                        skipped = True
+                        break
+                    if x_ in seen_ or x_ in steps or x_ not in lp["blocks"]:
+                        continue
+                    seen_.add(x_)
+                    st_.extend(y_ for y_ in cat.succ[x_] if (x_, y_) not in excused)
+                ck.ob("PHASE", "connect/loop/%d/every" % i, not skipped and lp["some"] not in (), "%s: `build the ancestor cache` %s" % (cat.short, "runs for every term of the arena that is not reported as cached already" if not skipped else "is SKIPPED for some elements of the terms of the arena (a `continue` or a guard other than the cached-test bypasses it)"), where=cat.where())
+                continue
             if steps:
                 check_every_element(ck, "PHASE", "connect/loop/%d" % i, cat, lp, steps, "build the ancestor cache", "the terms of the arena")
         hard = hard_truncations(prog, cat)
@@ -261,7 +376,15 @@ def run(ck, prog, ctx):
     for wid in sorted(cache_writers):
         wb_ = prog.bodies[wid]
         if wb_.kind in ("Fn", "AssocFn") and wb_.impl_self and wb_.impl_self.get("adt") == "ontology::builder::Builder":
-            check_required_steps(ck, "ROLE", prog, wb_, [("write the cache", lambda t: any(t.callee.res == a.id for a in accessor_mut)), ("visit every direct parent", lambda t: to_writer(t))])
+            # a term WITHOUT direct parents has nobody to visit: the true edge of `parents.is_empty()` counts as the visit
+            def visit_or_none(t, _wb=wb_):
+                if to_writer(t):
+                    return True
+                if t.callee.method == "is_empty" and t.args:
+                    og_ = origins(_wb, pvn, t.args[0])
+                    return any(o[0] == "call" and o[1] == TI + "::parents" for o in og_) or ("field", TI, "parents") in og_
+                return False
+            check_required_steps(ck, "ROLE", prog, wb_, [("write the cache", lambda t: any(t.callee.res == a.id for a in accessor_mut)), ("visit every direct parent", visit_or_none)])
 
     # ------------------------------------------------------------------ PHASE: every direct parent contributes its closure
     # (a `continue` / guard that skips the accumulation for some parents - "redundant edge" shortcuts - loses ancestors)
@@ -275,17 +398,41 @@ def run(ck, prog, ctx):
             src = origins(wb_, pvn, lp["iter"])
             if not (any(o[0] == "call" and o[1] == TI + "::parents" for o in src) or ("field", TI, "parents") in src):
                 continue
+            # accumulation sites: every call in the loop that CONSUMES the parent's closure set (the value read through a cache getter) other
+            # than a pure query - insert in an inner loop over it, `|`, extend, clone / clone_from into the accumulator, a private merge helper
+            QUERY = {"is_empty", "len", "contains", "iter", "into_iter", "next", "deref", "as_ref", "borrow", "first", "last", "get"}
+            closure_getters_ = {x.id for x in prog.production() if x.kind in ("Fn", "AssocFn") and "all_parents" in field_names(pv.of_return(x), "HpoTermInternal") and x.id not in (TI + "::new",)}
+
+            def is_closure_val(op):
+                og_ = origins(wb_, pvn, op)
+                return any(o[0] == "call" and (o[1] in closure_getters_ or o[1] in cache_writers) for o in og_) or ("field", TI, "all_parents") in og_
             acc = set()
             for bi, t in wb_.calls():
-                if bi in lp["blocks"] and bi != lp["next_bb"]:
-                    nm = t.callee.res or t.callee.deff or ""
-                    if nm.endswith("HpoGroup::insert") or t.callee.method in ("extend", "bitor", "add", "bitor_assign", "append", "extend_from_slice", "insert") and "HpoGroup" in ((t.callee.def_args or "") + nm):
-                        inner = [h for h, bl in nat.items() if bi in bl and h != lp["header"] and h in lp["blocks"]]
-                        acc.add(min(inner, key=lambda h: len(nat[h])) if False else (inner[0] if inner else bi))
-                        # an accumulation inside an inner loop counts at the OUTERMOST inner loop header (that loop may run zero times)
-                        if inner:
-                            acc.discard(inner[0])
-                            acc.add(max(inner, key=lambda h: len(nat[h])))
+                if bi not in lp["blocks"] or bi == lp["next_bb"] or not t.args:
+                    continue
+                consumed = [a for a in t.args if a.place is not None and is_closure_val(a)]
+                if not consumed or (t.callee.res in closure_getters_) or (t.callee.res in cache_writers) or to_writer(t):
+                    continue
+                if t.callee.method in ("iter", "into_iter"):
+                    # an inner loop over the closure: counts at its header (it may run zero times) when it accumulates inside
+                    for il in fls:
+                        if il["header"] in lp["blocks"] and il["header"] != lp["header"] and any(x[0] == "call" and x[3] == wb_.id and x[4] == bi for x in pvn.of_operand(wb_, il["iter"])):
+                            if any(b2 in il["blocks"] and (t2.callee.method in ("insert", "push", "extend", "insert_unchecked")) for b2, t2 in wb_.calls()):
+                                acc.add(il["header"])
+                    continue
+                if t.callee.method == "is_empty" and len(t.args) == 1:
+                    # `if !ancestors.is_empty() { union }`: on the branch where the parent's closure set IS empty there is nothing to add - that
+                    # branch counts as the step (only when it is a block of its own, so that no other way round the step hides behind it)
+                    from engines import positive_edges as _pe
+                    for e_ in _pe(wb_, pvn, bi):
+                        if e_[1] in lp["blocks"] and len([p_ for p_ in wb_.pred[e_[1]] if p_ in wb_.reach]) == 1:
+                            acc.add(e_[1])
+                    continue
+                if t.callee.method in QUERY:
+                    continue
+                if t.callee.trait == "std::iter::Iterator" and t.callee.method not in ("for_each", "fold", "try_for_each", "try_fold", "collect", "chain"):
+                    continue  # any / all / find / position ... over (or capturing) the closure set: a test, not an accumulation
+                acc.add(bi)
             if acc:
                 check_every_element(ck, "PHASE", "cache/%s/parents-loop/%d" % (wb_.short, i), wb_, lp, acc, "add the parent's ancestors to the set", "the direct parents")
 
@@ -302,6 +449,29 @@ def run(ck, prog, ctx):
                     # operands of the union-like operations that build the written value, classified by their shallow origin
                     parts = set()
                     closure_getters = {x.id for x in prog.production() if x.kind in ("Fn", "AssocFn") and "all_parents" in field_names(pv.of_return(x), "HpoTermInternal") and x.id not in (TI + "::new",)}
+                    # a copy (clone / to_owned / clone_from) is a union operand only when the copy itself is (part of) the written GROUP - reached
+                    # backwards from the written value through moves, borrows and the operands of set operations, never through an iteration
+                    # (`let parents = t.parents().clone(); for p in &parents { .. }` iterates the copy, it does not unite it)
+                    UNION_M = ("bitor", "clone", "to_owned", "clone_from", "add", "extend", "union", "take", "replace")
+                    gflow, gwork = set(), ([s.rv["op"].place.local] if s.rv["op"].place is not None else [])
+                    wdefs = pvn.defs(w)
+                    while gwork:
+                        l_ = gwork.pop()
+                        if l_ in gflow:
+                            continue
+                        gflow.add(l_)
+                        for k_, p_, d_ in wdefs.get(l_, []):
+                            if k_ == "assign" and d_.rv["k"] in ("use", "cast") and d_.rv["op"].place is not None:
+                                gwork.append(d_.rv["op"].place.local)
+                            elif k_ == "assign" and d_.rv["k"] == "ref":
+                                gwork.append(d_.rv["place"].local)
+                            elif k_ == "call" and (d_.callee.method in UNION_M or (d_.callee.res in prog.bodies and "HpoGroup" in (d_.callee.res or ""))):
+                                gwork.extend(x_.place.local for x_ in d_.args if x_.place is not None)
+                        for _, ct_ in w.calls():
+                            # calls that write the group behind `&mut l_`: their group-typed operands flow in as well
+                            if ct_.callee.method in ("extend", "clone_from", "append", "bitor_assign") or (ct_.callee.res in prog.bodies and "HpoGroup" in (ct_.callee.res or "") and ct_.callee.method not in ("insert", "insert_unchecked", "contains")):
+                                if ct_.args and ct_.args[0].place is not None and source_of_ref(w, wdefs, ct_.args[0].place.local) == l_:
+                                    gwork.extend(x_.place.local for x_ in ct_.args[1:] if x_.place is not None)
                     for a in val:
                         hb_id = (a[3] if a[0] == "call" else a[2]) if a[0] in ("call", "mutcall") else None
                         if hb_id is not None and (hb_id == w.id or hb_id.startswith(w.id + "::{closure")) and hb_id in prog.bodies:
@@ -309,7 +479,12 @@ def run(ck, prog, ctx):
                             cbi = a[4] if a[0] == "call" else a[3]
                             ct = hb.blocks[cbi].term
                             nm = ct.callee.res or ct.callee.deff or ""
-                            if not (("BitOr" in (ct.callee.def_args or "") and "HpoGroup" in (ct.callee.def_args or "")) or nm.endswith("HpoGroup::insert") or ct.callee.method in ("extend", "add")):
+                            group_helper = nm in prog.bodies and (prog.bodies[nm].impl_self or {}).get("adt", "").endswith("HpoGroup") and not prog.bodies[nm].exported and "&mut" in str(prog.bodies[nm].locals[1].get("s", "")) if nm in prog.bodies and prog.bodies[nm].nargs >= 1 else False
+                            if not (("BitOr" in (ct.callee.def_args or "") and "HpoGroup" in (ct.callee.def_args or "")) or nm.endswith("HpoGroup::insert") or ct.callee.method in ("extend", "add", "clone", "clone_from", "to_owned") and "HpoGroup" in ((ct.callee.def_args or "") + nm) or group_helper):
+                                continue
+                            if hb is w and ct.callee.method in ("clone", "to_owned") and not (ct.dest is not None and ct.dest.is_local() and ct.dest.local in gflow):
+                                continue
+                            if hb is w and ct.callee.method == "clone_from" and not (ct.args and ct.args[0].place is not None and source_of_ref(w, wdefs, ct.args[0].place.local) in gflow):
                                 continue
                             for x in ct.args:
                                 og = origins(hb, pvn, x)
